@@ -218,19 +218,21 @@ End Basic.
 Theorem head_correct v n : 0 <= vlen v <= vcap v -> 0 <= n ->
   head v n = Ok (mkView (voff v) (Z.min n (vlen v)) (vcap v)).
 Proof.
-  intros H Hn. unfold head, hd_short, hd_hi, slice3. destruct v as [o l c]. cbn [voff vlen vcap] in *.
-  decide_if.
+  intros H Hn. unfold head, hd_hi, slice3. destruct v as [o l c]. cbn [voff vlen vcap] in *.
+  destruct (hd_short l n) eqn:E; unfold hd_short in E; zb.
   - rewrite Z.min_r by lia. reflexivity.
   - decide_if. rewrite Z.min_l by lia. do 2 f_equal; lia.
 Qed.
 
+(* both theorems use from the early-return test only  len <= n  (taken) and  n <= len  (not taken),
+   so  len < n  and the equivalent  len <= n  both check *)
 Theorem tail_correct v n : 0 <= vlen v <= vcap v -> 0 <= n ->
   tail v n = Ok (mkView (voff v + (vlen v - Z.min n (vlen v))) (Z.min n (vlen v))
-                        (if vlen v <? n then vcap v else vcap v - (vlen v - n))).
+                        (vcap v - (vlen v - Z.min n (vlen v)))).
 Proof.
-  intros H Hn. unfold tail, tl_short, tl_lo, slice3. destruct v as [o l c]. cbn [voff vlen vcap] in *.
-  destruct (l <? n) eqn:E; zb.
-  - rewrite Z.min_r by lia. do 2 f_equal. lia.
+  intros H Hn. unfold tail, tl_lo, slice3. destruct v as [o l c]. cbn [voff vlen vcap] in *.
+  destruct (tl_short l n) eqn:E; unfold tl_short in E; zb.
+  - rewrite Z.min_r by lia. do 2 f_equal; lia.
   - decide_if. rewrite Z.min_l by lia. do 2 f_equal; lia.
 Qed.
 
@@ -274,7 +276,7 @@ Theorem tail_view {T} (b : list T) v n : valid_view b v -> 0 <= n ->
 Proof.
   intros V Hn. pose proof V as (H1 & H2 & H3).
   eexists. split; [apply tail_correct; lia|]. cbn [voff vlen vcap]. split; [lia|]. split; [reflexivity|].
-  split; [destruct (Z.ltb_spec (vlen v) n); lia|]. apply tail_window; assumption.
+  split; [lia|]. apply tail_window; assumption.
 Qed.
 
 Theorem negative_arguments {T} (v : view) (n : Z) (x : list T) (r : list (list T)) :
